@@ -2,6 +2,7 @@ package expr
 
 import (
 	"fmt"
+	"slices"
 	"strconv"
 
 	"goa.design/goa/v3/eval"
@@ -217,8 +218,26 @@ func (e *GRPCEndpointExpr) Validate() error {
 				verr.Merge(validateRPCTags(msgFields, e))
 			}
 		}
+		if hasMessage || hasMetadata {
+			// the payload attributes that are neither sent in the request metadata
+			// nor security attributes end up in the request message: they need
+			// field numbers too
+			msgFields := &Object{}
+			for _, nat := range *pobj {
+				inMetadata := hasMetadata && AsObject(e.Metadata.Type).Attribute(nat.Name) != nil
+				if !inMetadata && !slices.Contains(secAttrs, nat.Name) {
+					msgFields.Set(nat.Name, nat.Attribute)
+				}
+			}
+			verr.Merge(validateRPCTags(msgFields, e))
+		}
 	} else if hasMessage && hasMetadata {
 		verr.Add(e, "Both request message and metadata are defined, but payload is not an object. Define either metadata or message or make payload an object type.")
+	}
+
+	// The attributes of a streaming payload form the streaming request message
+	if sobj := AsObject(e.MethodExpr.StreamingPayload.Type); sobj != nil {
+		verr.Merge(validateRPCTags(sobj, e))
 	}
 
 	// Validate response
